@@ -80,12 +80,12 @@ theorem k2_meridian (p : K2d3.P) (x y z : ℝ) :
 
 theorem k3_plane (D R td a b x y : ℝ) :
     K3d3.burntime ⟨D, R, td, a, b, 0⟩ x y 0 = K3d2.burntime ⟨D, R, td, a, b⟩ x y := by
-  simp only [epv_tree, epv_cond, epv_leaf, sub_self, mul_zero, add_zero]
+  simp only [epv_tree, epv_cond, epv_leaf, sub_self, mul_zero, add_zero, neg_zero]
   first | done | congr
 
 theorem k3_plane_outcome (D R td a b x y : ℝ) :
     K3d3.outcome ⟨D, R, td, a, b, 0⟩ x y 0 = K3d2.outcome ⟨D, R, td, a, b⟩ x y := by
-  simp only [epv_tree, epv_cond, mul_zero, add_zero]
+  simp only [epv_tree, epv_cond, mul_zero, add_zero, neg_zero]
   first | done | congr
 
 end EPV.C07
